@@ -41,7 +41,9 @@
 (***************************************************************************)
 EXTENDS Integers, Sequences, FiniteSets, TLC, Json
 
-CONSTANTS Scope,     \* "items" | "bytes" | "typed" | "seeds" | "all"
+CONSTANTS Deviations, \* the named deviations of the coded decoders that the design layer models, a subset of
+                      \* {"optfix", "expelled", "sortedset", "dsmap"}: remove a name when the code is repaired
+          Scope,     \* "items" | "bytes" | "typed" | "seeds" | "all"
           Large,     \* TRUE = the large alphabets of scopes items/bytes
           NV,        \* sample variants 0..NV-1 per type (scope typed)
           NodeCap,   \* at most this many nodes of a sample are mutated (stride selection)
@@ -105,6 +107,8 @@ DecSeq(bs, pos, end) ==
         IF ~d.ok \/ d.nx > end THEN BadSeq
         ELSE LET r == DecSeq(bs, d.nx, end) IN IF r.ok THEN [ok |-> TRUE, v |-> <<d.it>> \o r.v] ELSE BadSeq
 
+\* parse of the first item only (what a stream decoder consumes): ok iff a first item exists and fits the input
+ParseFirst(bs) == DecAt(bs, 1)
 \* whole-input parse: ok iff exactly one item and nothing else
 Parse(bs) == LET d == DecAt(bs, 1) IN IF d.ok /\ d.nx = Len(bs) + 1 THEN d ELSE BadDec
 Canonical(bs) == Parse(bs).ok
@@ -223,7 +227,8 @@ PadHash(v) == IF Len(v) >= 32 THEN SubSeq(v, Len(v) - 31, Len(v)) ELSE [i \in 1.
 IsPair(x) == x.k = "l" /\ Len(x.e) = 2 /\ x.e[1].k = "s" /\ x.e[2].k = "s"
 
 RECURSIVE Match(_, _, _)
-Match(s, it, strict) ==
+Match(s, it, strict0) ==
+  LET strict == strict0 \/ s.k \notin Deviations IN
   CASE s.k = "uint"   -> it.k = "s" /\ Len(it.v) <= s.n /\ NoLead(it.v)
     [] s.k = "big"    -> it.k = "s" /\ NoLead(it.v)
     [] s.k = "bool"   -> it.k = "s" /\ (it.v = <<>> \/ it.v = <<1>>)
@@ -234,13 +239,13 @@ Match(s, it, strict) ==
                          \/ ~strict /\ it.k = "l" /\ it.e = <<>>       \* as coded: size 0 of ANY kind decodes to nil
     [] s.k = "expelled" -> /\ it.k = "s" /\ Len(it.v) <= 1 /\ NoLead(it.v)
                            /\ strict => it.v \in {<<>>, <<1>>}         \* as coded: any uint8, only 1 means TRUE
-    [] s.k = "list"   -> it.k = "l" /\ \A i \in DOMAIN it.e : Match(s.e, it.e[i], strict)
-    [] s.k = "sortedset" -> /\ it.k = "l" /\ \A i \in DOMAIN it.e : Match(s.e, it.e[i], strict)
+    [] s.k = "list"   -> it.k = "l" /\ \A i \in DOMAIN it.e : Match(s.e, it.e[i], strict0)
+    [] s.k = "sortedset" -> /\ it.k = "l" /\ \A i \in DOMAIN it.e : Match(s.e, it.e[i], strict0)
                             /\ strict => \A i \in 1..(Len(it.e) - 1) : LexLess(it.e[i].v, it.e[i + 1].v)
     [] s.k = "dsmap"  -> /\ it.k = "l" /\ \A i \in DOMAIN it.e : IsPair(it.e[i])
                          /\ strict => /\ \A i \in DOMAIN it.e : Len(it.e[i].e[1].v) = 32
                                       /\ \A i, j \in DOMAIN it.e : i # j => it.e[i].e[1].v # it.e[j].e[1].v
-    [] s.k = "struct" -> it.k = "l" /\ Len(it.e) = Len(s.f) /\ \A i \in DOMAIN it.e : Match(s.f[i], it.e[i], strict)
+    [] s.k = "struct" -> it.k = "l" /\ Len(it.e) = Len(s.f) /\ \A i \in DOMAIN it.e : Match(s.f[i], it.e[i], strict0)
 
 TypedCanonical(s, bs) == Canonical(bs) /\ Match(s, Dec(bs), TRUE)      \* property layer
 Accepts(s, bs) == Canonical(bs) /\ Match(s, Dec(bs), FALSE)            \* design layer
@@ -279,7 +284,8 @@ Conf(s, it, r) ==
 \* ---- why a design-accepted item is not the encoding of a value: the classes used as discriminators
 RECURSIVE Defects(_, _)
 Defects(s, it) ==
-  CASE s.k = "optfix"    -> IF it.k = "l" THEN {s.own, "empty_list_for_nil"} ELSE {}
+  CASE s.k \in {"optfix", "expelled", "sortedset", "dsmap"} /\ s.k \notin Deviations -> {}
+    [] s.k = "optfix"    -> IF it.k = "l" THEN {s.own, "empty_list_for_nil"} ELSE {}
     [] s.k = "expelled"  -> IF it.v \notin {<<>>, <<1>>} THEN {s.own, "expelled_byte"} ELSE {}
     [] s.k = "sortedset" ->
          (IF \E i \in 1..(Len(it.e) - 1) : LexLess(it.e[i + 1].v, it.e[i].v) THEN {s.own, "unsorted"} ELSE {})
